@@ -378,6 +378,9 @@ pub struct RunCfg {
     pub labels: bool,
     /// render conflict (message + graphviz) on unsat
     pub render: bool,
+    /// behaviour of the provider's sort_candidates (re-entrant cache queries)
+    #[serde(default)]
+    pub sort_probe: crate::provider::SortProbe,
 }
 
 impl Default for RunCfg {
@@ -388,6 +391,7 @@ impl Default for RunCfg {
             activity: None,
             labels: false,
             render: true,
+            sort_probe: crate::provider::SortProbe::Off,
         }
     }
 }
@@ -542,7 +546,13 @@ impl Session {
                             if render {
                                 let n = data.graph.nodes.len();
                                 let m = data.graph.edges.len();
-                                let quad = (n + m + 2).pow(2);
+                                // the longest text one requirement can contribute to a label or a
+                                // line (a union of dozens of version sets is one long label)
+                                let label_max = (0..u.unions.len())
+                                    .map(|i| u.display_req(&Req::Union(i)).len())
+                                    .max()
+                                    .unwrap_or(0);
+                                let quad = (n + m + 2).pow(2) + (n + m + 2) * label_max / 16;
                                 let mut cancelled = BoundedString { s: String::new(), limit: 4096 + quad * 64, overflow: false };
                                 let disp2 = conflict.display_user_friendly(s);
                                 let _ = std::fmt::write(&mut cancelled, format_args!("{disp2}"));
@@ -559,7 +569,7 @@ impl Session {
                                 }
                                 data.message = msg.s;
                                 for (simplify, slot) in [(false, 0), (true, 1)] {
-                                    let mut out = BoundedBytes { b: vec![], limit: 64 + 256 * (m + 1), overflow: false };
+                                    let mut out = BoundedBytes { b: vec![], limit: 64 + (256 + 2 * label_max) * (m + 1), overflow: false };
                                     let _ = graph.graphviz(&mut out, s.provider(), simplify);
                                     if out.overflow {
                                         data.overflow = Some(format!("graphviz(simplify={simplify})"));
@@ -634,6 +644,7 @@ impl Session {
 /// Convenience: fresh solver, one solve.
 pub fn run_once(u: &Rc<Universe>, problem: &Problem, cfg: &RunCfg) -> StepResult {
     let mut s = Session::new(u.clone(), &cfg.runtime, cfg.activity);
+    s.provider().probe.set(cfg.sort_probe);
     s.solve(problem, cfg.cancel, cfg.labels, cfg.render)
 }
 
